@@ -95,7 +95,7 @@ func checkC09PathPhase(w *World, r *Report, id string) {
 }
 
 func checkC09Strip(w *World, r *Report) {
-	ru := r.Rule("C09.2", "port and trailing dot removed: the host given to the host matcher is StripHostPort(request host), tested non-empty first; StripHostPort returns its argument unchanged only when it is empty or net.SplitHostPort failed, and otherwise returns strings.TrimSuffix(host, \".\")", 2)
+	ru := r.Rule("C09.2", "port and trailing dot removed: the host given to the host matcher is StripHostPort(request host), tested non-empty first; StripHostPort returns its argument unchanged only when it is empty, net.SplitHostPort failed or the text after the last ':' is not a numeric port, and otherwise returns strings.TrimSuffix(host, \".\")", 2)
 	af := w.astFuncOf(modulePath, "roots.lookup")
 	calls := findCalls(af.decl.Body, "lookupByDomain")
 	if len(calls) != 1 {
@@ -142,18 +142,40 @@ func checkC09Strip(w *World, r *Report) {
 			}
 		}
 		if v == param {
-			for _, f := range factsAtBlock(ret.Block()) {
-				if bo, ok := f.Cond.(*ssa.BinOp); ok {
-					if s, isS := constString(bo.Y); isS && s == "" && bo.X == param && ((bo.Op == token.EQL && f.Val) || (bo.Op == token.NEQ && !f.Val)) {
-						okk, why = true, "empty host returned unchanged"
+			reason := func(fs []Fact) string {
+				for _, f := range fs {
+					if bo, ok := f.Cond.(*ssa.BinOp); ok {
+						if s, isS := constString(bo.Y); isS && s == "" && bo.X == param && ((bo.Op == token.EQL && f.Val) || (bo.Op == token.NEQ && !f.Val)) {
+							return "empty host returned unchanged"
+						}
+						if isNilConst(bo.Y) && isErrorType(bo.X.Type()) && ((bo.Op == token.NEQ && f.Val) || (bo.Op == token.EQL && !f.Val)) {
+							return "unparsable host:port returned unchanged"
+						}
 					}
-					if isNilConst(bo.Y) && isErrorType(bo.X.Type()) && ((bo.Op == token.NEQ && f.Val) || (bo.Op == token.EQL && !f.Val)) {
-						okk, why = true, "unparsable host:port returned unchanged"
+					// the text after the last ':' is not a numeric port (validator of the package said no)
+					if c, ok := f.Cond.(*ssa.Call); ok && !f.Val {
+						if cal := c.Call.StaticCallee(); cal != nil && cal.Pkg == strip.Pkg {
+							return "host with a non-numeric \":suffix\" returned unchanged"
+						}
 					}
 				}
+				return ""
+			}
+			if why2 := reason(factsAtBlock(ret.Block())); why2 != "" {
+				okk, why = true, why2
+			} else if len(ret.Block().Preds) > 0 {
+				all := true
+				for _, p := range ret.Block().Preds {
+					if w2 := reason(factsOnEdge(p, ret.Block())); w2 == "" {
+						all = false
+					} else {
+						why = w2
+					}
+				}
+				okk = all
 			}
 		}
-		ru.Check("return of StripHostPort", w.InstrPos(ret), "trimmed host, or the unchanged input for an empty/unparsable host", okk, why)
+		ru.Check("return of StripHostPort", w.InstrPos(ret), "trimmed host, or the unchanged input for an empty/unparsable host or a non-numeric port", okk, why)
 	})
 }
 
@@ -182,9 +204,10 @@ func checkC09Fallback(w *World, r *Report) {
 		}
 		ru.Check("path-only shortcut", w.Pos(shortcut.Pos()), "taken only when the method root has exactly one child and its key byte is '/'", single && slash && strings.HasSuffix(exprStr(shortcut.Args[1]), ".children[0]"), fmt.Sprintf("singleChild=%v slashKey=%v", single, slash))
 	}
-	// hostname result returned only when non-nil
+	// hostname result returned: evaluate the guard of `return n, tsr` for every combination of (found, tsr, ignore flag,
+	// redirect flag) of the hostname attempt
 	domain := findCalls(af.decl.Body, "lookupByDomain")
-	okHit := false
+	var guard ast.Expr
 	ast.Inspect(af.decl.Body, func(n ast.Node) bool {
 		ifs, ok := n.(*ast.IfStmt)
 		if !ok {
@@ -192,16 +215,95 @@ func checkC09Fallback(w *World, r *Report) {
 		}
 		for _, st := range ifs.Body.List {
 			ret, ok := st.(*ast.ReturnStmt)
-			if !ok || len(ret.Results) != 2 || exprStr(ret.Results[0]) != "n" {
-				continue
+			if ok && len(ret.Results) == 2 && exprStr(ret.Results[0]) == "n" && guard == nil {
+				guard = ifs.Cond
 			}
-			// the guard is exactly n != nil: any further conjunct would drop hostname results (e.g. trailing-slash candidates)
-			c := exprStr(ifs.Cond)
-			okHit = c == "n!=nil" || c == "nil!=n"
 		}
 		return true
 	})
-	ru.Check("hostname hit", w.Pos(af.decl.Pos()), "the hostname attempt's result is returned exactly when it found a node (n != nil)", okHit && len(domain) == 1, fmt.Sprint(okHit))
+	type env struct{ found, tsr, ign, red bool }
+	var evalG func(e ast.Expr, v env) (bool, bool)
+	evalG = func(e ast.Expr, v env) (bool, bool) {
+		switch x := e.(type) {
+		case *ast.ParenExpr:
+			return evalG(x.X, v)
+		case *ast.UnaryExpr:
+			if x.Op == token.NOT {
+				r, k := evalG(x.X, v)
+				return !r, k
+			}
+		case *ast.BinaryExpr:
+			if x.Op == token.LAND || x.Op == token.LOR {
+				l, lk := evalG(x.X, v)
+				r, rk := evalG(x.Y, v)
+				if x.Op == token.LAND {
+					if (lk && !l) || (rk && !r) {
+						return false, true
+					}
+					return l && r, lk && rk
+				}
+				if (lk && l) || (rk && r) {
+					return true, true
+				}
+				return l || r, lk && rk
+			}
+		}
+		switch s := exprStr(e); {
+		case s == "n!=nil" || s == "nil!=n":
+			return v.found, true
+		case s == "n==nil" || s == "nil==n":
+			return !v.found, true
+		case s == "tsr":
+			return v.tsr, true
+		case strings.HasSuffix(s, ".ignoreTrailingSlash"):
+			return v.ign, v.found // only meaningful when a node was found
+		case strings.HasSuffix(s, ".redirectTrailingSlash"):
+			return v.red, v.found
+		}
+		return false, false
+	}
+	if guard == nil || len(domain) != 1 {
+		r.Unrecognised("C09.3: the return of the hostname attempt's result was not found in roots.lookup")
+	} else {
+		lost, spurious, shadows, unknown := "", "", "", false
+		for m := 0; m < 16; m++ {
+			v := env{m&1 != 0, m&2 != 0, m&4 != 0, m&8 != 0}
+			if !v.found && (v.tsr || v.ign || v.red) {
+				continue
+			}
+			ret, known := evalG(guard, v)
+			if !known {
+				unknown = true
+				continue
+			}
+			switch {
+			case !v.found && ret:
+				spurious = "returned although the hostname attempt found nothing"
+			case v.found && (!v.tsr || v.ign || v.red) && !ret:
+				lost = fmt.Sprintf("a hostname result is dropped (tsr=%v ignore=%v redirect=%v)", v.tsr, v.ign, v.red)
+			case v.found && v.tsr && !v.ign && !v.red && ret:
+				shadows = "a trailing-slash recommendation whose route has neither trailing-slash mode enabled pre-empts the path-only fallback"
+			}
+		}
+		if unknown {
+			r.Unrecognised("C09.3: the guard %s of the hostname result mentions something other than n, tsr and the route's trailing-slash flags", exprStr(guard))
+		} else {
+			ru.Check("hostname hit", w.Pos(guard.Pos()), "a direct hostname match, and a trailing-slash recommendation its route acts on, are returned without trying path-only routes; nothing is returned when the attempt found nothing", lost == "" && spurious == "", orDefault(lost+spurious, "guard "+exprStr(guard)))
+			// the other half of the sentence: path-only routes are used when the hostname attempt yields no match and no action.
+			// It may also be honoured by the dispatcher retrying a path-only lookup (host argument "").
+			retry := false
+			if serve := w.Method("Router", "ServeHTTP"); serve != nil {
+				eachInstr(serve, func(in ssa.Instruction) {
+					if c, ok := in.(*ssa.Call); ok && c.Call.StaticCallee() != nil && c.Call.StaticCallee().Name() == "lookup" && len(c.Call.Args) >= 5 {
+						if hs, ok := constString(c.Call.Args[2]); ok && hs == "" {
+							retry = true
+						}
+					}
+				})
+			}
+			ru.Check("recommendation without action", w.Pos(guard.Pos()), "a hostname trailing-slash recommendation that no trailing-slash mode acts on does not keep the path-only routes from being tried", shadows == "" || retry, orDefault(shadows, "falls back"))
+		}
+	}
 	// fallback preceded by the two resets after the hostname attempt
 	fb, fi := af.blockOf(fallback)
 	if fb == nil {
